@@ -31,8 +31,7 @@ On(c) == c \in Clauses
 
 FirstFail(s2, e) ==
   LET o == e.obs hs == Handles(s2) IN
-  IF e.exc_np # "none" THEN "np_model_mismatch:exc"   \* NumPy itself rejects a statement the generator thought legal
-  ELSE IF e.exc # "none" THEN "exc"     \* (an admissible InvalidBackprop is handled in TNext)
+  IF e.exc # "none" \/ e.exc_np # "none" THEN "exc"     \* (admissible failures are handled in TNext)
   ELSE IF {h \in 1..Len(o.t) : o.t[h].live} # hs THEN "handles"
   \* --- the NumPy twin first: a disagreement here means the MODEL of NumPy is wrong (machinery error)
   ELSE IF \E h \in hs : o.t[h].np_sh # s2.H[h].sh THEN "np_model_mismatch:shape"
@@ -47,10 +46,12 @@ FirstFail(s2, e) ==
   ELSE IF On("cr")    /\ \E h \in hs : o.t[h].crn # ~HasCr(s2, h) THEN "cr"
   ELSE IF On("grad")  /\ \E h \in hs : ~OptEq(o.t[h].g, ObsGrad(s2, h)) THEN "grad"
   ELSE IF On("gshare") /\ ObsPairs(o.gshare) # GradSharePairs(s2) THEN "gshare"
+  ELSE IF On("track") /\ o.track # s2.track THEN "track"
   ELSE "ok"
 
 Detail(s2, e, v) ==
-  IF v = "grad" THEN <<"EXPECTED-GRAD", tid, l, [h \in Handles(s2) |-> ObsGrad(s2, h)]>>
+  IF v = "grad" THEN <<"EXPECTED-GRAD", tid, l, [h \in {x \in Handles(s2) : ~OptEq(e.obs.t[x].g, ObsGrad(s2, x))} |->
+                                                   [expected |-> ObsGrad(s2, h), observed |-> e.obs.t[h].g]]>>
   ELSE IF v \in {"val", "np_model_mismatch:val"} THEN <<"EXPECTED-VAL", tid, l, [h \in Handles(s2) |-> Vals(s2, h)]>>
   ELSE IF v \in {"share", "np_model_mismatch:share"} THEN <<"EXPECTED-SHARE", tid, l, SharePairs(s2)>>
   ELSE IF v = "gshare" THEN <<"EXPECTED-GSHARE", tid, l, GradSharePairs(s2)>>
@@ -58,14 +59,44 @@ Detail(s2, e, v) ==
   ELSE IF v = "cr" THEN <<"EXPECTED-CRNONE", tid, l, [h \in Handles(s2) |-> ~HasCr(s2, h)]>>
   ELSE <<"DETAIL", tid, l, v>>
 
+\* ------------------------------------------------------------------ failing statements (C13, C09, C15)
+InPlaceStmt(s) == s.k \in {"setitem", "aug", "uout"}
+Target(s) == IF s.k = "uout" THEN s.out ELSE s.t
+\* A statement that NumPy itself rejects is a failing statement: it must raise in MyGrad too and leave no trace.
+\* MyGrad-only failures that the properties allow:
+\*   - InvalidBackprop from a backward through a graph part of which was cleared after it was recorded (C09);
+\*   - with tracking off, an in-place update of a tensor whose memory is locked read-only by a live graph (C08/C15).
+Admissible(s, e, prev) ==
+  \/ e.exc_np # "none" /\ e.exc # "none"
+  \/ e.exc = "InvalidBackprop" /\ e.stmt.k = "backward" /\ PartialClear(s, e.stmt.h)
+  \/ e.exc = "ValueError" /\ InPlaceStmt(e.stmt) /\ ~s.track /\ ~prev.t[Target(e.stmt)].wr
+\* what a failed statement may leave behind: nothing, except that a failed in-place update may already have
+\* dropped the (stale) gradient of its target's family
+FailStates(s, stmt) ==
+  LET s0 == [s EXCEPT !.clk = @ + 1] IN
+  IF InPlaceStmt(stmt) /\ s.track
+  THEN LET r == Root(s, Target(stmt)) IN {s0, [s0 EXCEPT !.g[r] = None], [s0 EXCEPT !.H[Target(stmt)].gc = 0]}
+  ELSE {s0}
+
 TInit == tid \in 1..Len(Traces) /\ l = 1 /\ st = InitSt /\ verdict = "ok"
 TNext == /\ verdict = "ok" /\ l <= Len(Traces[tid])
          /\ LET e  == Traces[tid][l]
-                loud == e.exc = "InvalidBackprop" /\ e.stmt.k = "backward" /\ PartialClear(st, e.stmt.h)
-                s2 == IF loud THEN st ELSE Apply(st, e.stmt)
-                v  == IF loud THEN "ok" ELSE FirstFail(s2, e)
+                prev == IF l > 1 THEN Traces[tid][l - 1].obs ELSE e.obs
+                failed == e.exc # "none" \/ e.exc_np # "none"
+                e0 == [e EXCEPT !.exc = "none", !.exc_np = "none"]
+                cands == IF failed /\ Admissible(st, e, prev) THEN FailStates(st, e.stmt) ELSE {}
+                good == {c \in cands : FirstFail(c, e0) = "ok"}
+                s2 == IF failed
+                      THEN (IF good # {} THEN CHOOSE c \in good : TRUE
+                            ELSE IF cands # {} THEN CHOOSE c \in cands : c.g = st.g /\ c.H = st.H ELSE st)
+                      ELSE Apply(st, e.stmt)
+                loud == e.exc = "InvalidBackprop" /\ cands # {}     \* aborted backward: gradients unspecified, trace ends
+                v  == IF failed
+                      THEN (IF cands = {} THEN "exc" ELSE IF good # {} \/ loud THEN "ok" ELSE FirstFail(s2, e0))
+                      ELSE FirstFail(s2, e)
+                last == l = Len(Traces[tid])
             IN /\ st' = s2 /\ verdict' = v /\ l' = l + 1 /\ UNCHANGED tid
-               /\ (v # "ok" \/ l = Len(Traces[tid])) => PrintT(<<"VERDICT", tid, v, l>>)
+               /\ (v # "ok" \/ last) => PrintT(<<"VERDICT", tid, v, l>>)
                /\ (v # "ok") => PrintT(Detail(s2, e, v))
                /\ (v # "ok" /\ s2.kf # {}) => PrintT(<<"TAINT", tid, s2.kf>>)
 TSpec == TInit /\ [][TNext]_vars
